@@ -103,6 +103,10 @@ def normalize(sc):
         sc["ops"] = [["RUN"]]
     sc["faults"] = [f for f in sc.get("faults", []) if f["cmd"] in names]
     sc["src_count"] = min(sc.get("src_count", len(sc["nodes"])), len(sc["nodes"]))
+    if sc.get("late"):
+        sc["late"] = [x for x in sc["late"] if x in names]
+        if not sc["late"] or len(sc["late"]) == len(sc["nodes"]):
+            sc.pop("late")
     return sc
 
 
@@ -263,6 +267,13 @@ def _gen_nodes(rng, family, n):
     names = ["R%d" % i for i in range(n)]
     if rng.random() < 0.15:
         rng.shuffle(names)  # names carry no positional information
+    if n >= 2 and rng.random() < 0.15:
+        # result names that differ only in case are different results
+        a, b = rng.sample(range(n), 2)
+        names[a], names[b] = "slope", "Slope"
+        if n >= 3 and rng.random() < 0.5:
+            c = rng.choice([i for i in range(n) if i not in (a, b)])
+            names[c] = "SLOPE"
     nodes = []
     for i in range(n):
         if not refs[i] and rng.random() < 0.8:
@@ -556,7 +567,28 @@ def _generate_cyclic(rng, index, tier):
         "knobs": {"reclimit": rng.choice([400, 1000, 3000])},
     }
     sc["layout"]["eol"] = "\n"
-    return normalize(sc)
+    sc = normalize(sc)
+    if rng.random() < 0.25:
+        # history: the acyclic part is built and run first; the commands that close the cycle are added to the same
+        # program afterwards (API), and the program is run again
+        deps = deps_of(sc)
+        on_cycle = set()
+        for x in deps:
+            if any(x in closure(deps, d) for d in deps[x]):
+                on_cycle.add(x)
+        late = set(on_cycle)
+        changed = True
+        while changed:
+            changed = False
+            for x, ds in deps.items():
+                if x not in late and any(d in late for d in ds):
+                    late.add(x)
+                    changed = True
+        early = [nd["name"] for nd in sc["nodes"] if nd["name"] not in late]
+        if early and late:
+            sc["late"] = [nd["name"] for nd in sc["nodes"] if nd["name"] in late]
+            sc["ops"] = [["RUN"]]
+    return sc
 
 
 def _generate_eems(rng, index, tier):
@@ -574,7 +606,8 @@ def _generate_eems(rng, index, tier):
     hist = []
     for _ in range(rng.randint(1, 6)):
         r = rng.random()
-        hist.append(["RUN"] if r < 0.4 else ["GET", rng.choice(names)] if r < 0.75 else ["CRUN", rng.choice(names)])
+        hist.append(["RUN"] if r < 0.4 else ["GET", rng.choice(names)] if r < 0.7 else
+                    ["CRUN", rng.choice(names)] if r < 0.88 else ["TOUCH"])   # TOUCH: the environment rewrites the data file
     if not any(op[0] == "RUN" for op in hist):
         hist.insert(rng.randrange(len(hist) + 1), ["RUN"])
     sched["history"] = hist
@@ -632,6 +665,12 @@ def _execute_eems(sc):
                     program.commands[op[1]].result
                 elif op[0] == "CRUN":
                     program.commands[op[1]].run()
+                elif op[0] == "TOUCH":
+                    path = model["table"]["path"]
+                    fs.files[path] = fs.files[path] + b"\n"
+                    fs.touch(path)
+                    log.emit("actor", do="rewrite", path=path)
+                    res.fired("actor-rewrite-input")
                 added = sum(mon.counts.values()) - before
                 log.emit("op-end", op=op, added=added)
                 if complete and added:
@@ -777,7 +816,9 @@ def _make_exc(name):
 
 def _build(sc, Program, probe):
     nodes = sc["nodes"]
-    k = sc.get("src_count", len(nodes))
+    if sc.get("late"):
+        nodes = [n for n in nodes if n["name"] not in sc["late"]]
+    k = min(sc.get("src_count", len(nodes)), len(nodes))
     prog_nodes = []
     for n in nodes[:k]:
         args = [[s, n["args"][s]] for s in SLOTS if s in n["args"]]
@@ -921,6 +962,25 @@ def execute(sc):
                 return _finish(sc, res, mon, pos, gkey)
             mon.install([getattr(probe, c) for c in ("ProbeSrc", "ProbeSrcNoOut", "ProbeOp", "ProbeOpU", "ProbeSrcNone",
                                                      "ProbeOpNone")])
+            if sc.get("late"):
+                # first the acyclic part runs (not judged here), then the cycle is added to the same program
+                try:
+                    log.emit("op-begin", op="RUN-ACYCLIC-PART")
+                    program.run()
+                    log.emit("op-end", op="RUN-ACYCLIC-PART", ok=True)
+                    res.probe("cycle added to a program that had already been run")
+                except SimAbort:
+                    raise
+                except Exception as exc:  # noqa
+                    log.emit("op-end", op="RUN-ACYCLIC-PART", ok=False)
+                    res.observe("acyclic part failed to run: %s" % type(exc).__name__)
+                for nd in sc["nodes"]:
+                    if nd["name"] in sc["late"]:
+                        args = {s_: _api_value(nd["args"][s_], program, False) for s_ in SLOTS if s_ in nd["args"]}
+                        program.add_command(getattr(probe, nd["cls"]), nd["name"], args)
+                mon.counts.clear()
+                mon.returned.clear()
+                total_enters[0] = 0
             complete = False
             gets = {}
             for op in sc["ops"]:
@@ -1192,6 +1252,10 @@ def shrink_candidates(sc):
     if sc.get("template_twice"):
         c = clone()
         c["template_twice"] = False
+        yield c
+    if sc.get("late"):
+        c = clone()
+        c.pop("late")
         yield c
     # topological textual order
     if not cyc:
